@@ -220,10 +220,16 @@ pub fn exposure(all: &[RefAttr]) -> (Vec<usize>, Option<usize>) {
 pub fn decode(buf: &[u8]) -> Verdict {
     let n = buf.len();
     let mut causes = vec![];
-    if n >= 2 && buf[0] & 0xc0 != 0 {
+    if n >= 1 && buf[0] & 0xc0 != 0 {
         causes.push(Cause::NotStun);
     }
     if n < 20 {
+        // a short buffer can already show that it is not STUN: a cookie byte that is present and wrong
+        // (both defects are then present; the property does not rank coexisting causes)
+        let ck = COOKIE.to_be_bytes();
+        if (4..n.min(8)).any(|i| buf[i] != ck[i - 4]) && !causes.contains(&Cause::NotStun) {
+            causes.push(Cause::NotStun);
+        }
         causes.push(Cause::TruncHeader { actual: n });
         return Verdict::Reject(causes);
     }
